@@ -87,10 +87,14 @@ theorem for_step (f m : Nat) (s : State) (v inc lim : Int) (p : Obj) :
       (if forPast inc lim v then (s, .ok)
        else afterTurn (execOne f m (pushS s (.int v)) p true)
          (fun s1 => if forOver inc v then (s1, .ok) else forLoop f m s1 (wrap64 (v + inc)) inc lim p)) := by
-  simp only [forLoop, afterTurn, forPast, forOver]
-  split
-  · simp [okS]
-  · generalize execOne f m (pushS s (.int v)) p true = q
+  by_cases hc : forPast inc lim v
+  · rw [if_pos hc]
+    unfold forPast at hc
+    simp only [forLoop, if_pos hc, okS]
+  · rw [if_neg hc]
+    unfold forPast at hc
+    simp only [forLoop, if_neg hc, afterTurn, forOver]
+    generalize execOne f m (pushS s (.int v)) p true = q
     obtain ⟨s1, r1⟩ := q
     cases r1 with
     | err e => cases e <;> simp [okS]
@@ -499,7 +503,7 @@ theorem natCast_succ_mul (i : Nat) (inc : Int) : ((i + 1 : Nat) : Int) * inc = (
 `initial + i·increment` pushed — for all `int64` operands: when the control value after the
 last turn would not be an `int64`, the overflow guard of `bFor` ends the loop at the same count -/
 theorem for_count_pos {f0 m : Nat} {p : Obj} (init inc lim : Int) (hinc : 0 < inc)
-    (hlo : minInt64 ≤ init) (hhi : lim ≤ maxInt64) (σ : Nat → State)
+    (hlo : minInt64 ≤ init) (hinit : init ≤ maxInt64) (hhi : lim ≤ maxInt64) (σ : Nat → State)
     (h : ∀ i, i < forCount init inc lim →
       Runs f0 m p (pushS (σ i) (.int (init + (i : Int) * inc))) (σ (i + 1), .ok)) :
     ∀ fuel, f0 + forCount init inc lim + 1 ≤ fuel →
@@ -571,7 +575,7 @@ theorem for_count_pos {f0 m : Nat} {p : Obj} (init inc lim : Int) (hinc : 0 < in
 
 /-- … and with a negative increment -/
 theorem for_count_neg {f0 m : Nat} {p : Obj} (init inc lim : Int) (hinc : inc < 0)
-    (hhi : init ≤ maxInt64) (hlo : minInt64 ≤ lim) (σ : Nat → State)
+    (hhi : init ≤ maxInt64) (hinit : minInt64 ≤ init) (hlo : minInt64 ≤ lim) (σ : Nat → State)
     (h : ∀ i, i < forCount init inc lim →
       Runs f0 m p (pushS (σ i) (.int (init + (i : Int) * inc))) (σ (i + 1), .ok)) :
     ∀ fuel, f0 + forCount init inc lim + 1 ≤ fuel →
@@ -680,7 +684,7 @@ theorem for_overflow_fixed {f0 m : Nat} {p : Obj} (σ : Nat → State)
   refine ⟨hc, ?_⟩
   intro fuel hf
   have key := for_count_pos (f0 := f0) (m := m) (p := p) 0 4611686018427387904 9223372036854775807
-    (by decide) (by decide) (by decide) σ
+    (by decide) (by decide) (by decide) (by decide) σ
     (by
       rw [hc]
       intro i hi
@@ -908,6 +912,57 @@ theorem add_body (f m : Nat) (s : State) (r : Nat) (a b : Int) (rest : List Obj)
   rw [add_tail f m (enterDepth s) r a b rest hst hcell hl hb h1 h2]
   simp [addState, leaveDepth, enterDepth]
 
+/-! ### executing a concrete body: `{ pop }` -/
+
+theorem pop_named (f m : Nat) (s : State) (a : Obj) (rest : List Obj) (c : Bool)
+    (hst : s.vm.stack = a :: rest)
+    (hl : lookupName s.vm "pop" = some (.builtin "pop"))
+    (hb : ¬ (m > 0 ∧ s.numOps + 2 > m)) :
+    execTail (f + 3) m s (.op "pop") c true =
+      ({ s with numOps := s.numOps + 2, vm := { s.vm with stack := rest } }, .ok) := by
+  have hb1 : ¬ (m > 0 ∧ s.numOps + 1 > m) := by omega
+  have hb2 : ¬ (m > 0 ∧ s.numOps + 1 + 1 > m) := by omega
+  unfold execTail
+  simp only [hb1, if_false, hl]
+  unfold execTail
+  simp only [hb2, if_false]
+  unfold callBuiltin
+  simp [pureBuiltin, bPop, hst, okRes]
+
+/-- the state after one run of `{ pop }` -/
+def popState (s : State) (rest : List Obj) : State :=
+  { s with numOps := s.numOps + 3, hiDepth := max s.hiDepth (s.execDepth + 1),
+           vm := { s.vm with stack := rest } }
+
+theorem pop_body (f m : Nat) (s : State) (r : Nat) (a : Obj) (rest : List Obj)
+    (hd : s.execDepth < 100) (hp : s.procStart = [])
+    (hst : s.vm.stack = a :: rest) (hlen : rest.length + 1 ≤ 500)
+    (hcell : s.vm.getObjs r = #[.op "pop"])
+    (hl : lookupName s.vm "pop" = some (.builtin "pop"))
+    (hb : m = 0 ∨ s.numOps + 3 ≤ m) :
+    execOne (f + 6) m s (.proc r 0 1) true = (popState s rest, .ok) := by
+  rw [execOne_true _ _ _ _ hd, execBody_plain (f + 4) m (enterDepth s) (.proc r 0 1) true
+    (by show s.vm.stack.length ≤ 500; rw [hst]; simp; omega) hp (by simp) (by simp)]
+  have hb1 : ¬ (m > 0 ∧ (enterDepth s).numOps + 1 > m) := by show ¬ (m > 0 ∧ s.numOps + 1 > m); omega
+  conv => lhs; arg 1; unfold execTail
+  have e0 : ((1 : Nat) == 0) = false := by decide
+  simp only [hb1, if_false, if_true, enterLevel, leaveLevel, e0, Bool.false_eq_true, Bool.not_true, Bool.false_and]
+  have hrun : runBody (f + 3) m { enterDepth s with numOps := (enterDepth s).numOps + 1 } r 0 0 (1 - 1) =
+      ({ enterDepth s with numOps := (enterDepth s).numOps + 1 }, .ok) := by
+    show runBody (f + 2 + 1) m _ r 0 0 0 = _
+    simp only [runBody, okS]
+  rw [hrun]
+  have hlast : (VM.getObjs ({ enterDepth s with numOps := (enterDepth s).numOps + 1 } : State).vm r)[0 + (1 - 1)]? =
+      some (.op "pop") := by
+    show (s.vm.getObjs r)[0 + (1 - 1)]? = _
+    rw [hcell]; rfl
+  dsimp only
+  rw [hlast]
+  dsimp only
+  rw [pop_named f m { enterDepth s with numOps := (enterDepth s).numOps + 1 } a rest false hst hl
+    (by show ¬ (m > 0 ∧ s.numOps + 1 + 2 > m); omega)]
+  simp [popState, leaveDepth, enterDepth]
+
 #print axioms repeat_count
 #print axioms repeat_breaks
 #print axioms loop_breaks
@@ -927,5 +982,6 @@ theorem add_body (f m : Nat) (s : State) (r : Nat) (a b : Int) (rest : List Obj)
 #print axioms for_op_real_increment
 #print axioms incr_body
 #print axioms add_body
+#print axioms pop_body
 
 end PsVerif.Proofs.Loops
